@@ -11,6 +11,7 @@
 import GM.Proof.RenderWF.Main
 import GM.Proof.RenderWF.Tokenize
 import GM.Proof.RenderWF.Panic
+import GM.Props.Attribute
 
 namespace GM.Props.C03
 open GM GM.Spec
@@ -82,6 +83,16 @@ theorem xml_needs_noClash_witness :
     Spec.safeHtmlOK true (render (mkRCfg { xhtml := true } {}) clashTree) = true ∧
     Spec.xmlOK (render (mkRCfg { xhtml := true } {}) clashTree) = false := by
   decide +kernel
+
+/-! ### the attribute clauses of `Inv` hold of what the attribute parser produces (package `attribute`)
+
+`Inv` of parser output is otherwise monitored, not proved. For the only place where the parsers attach attributes
+(headings, with parser.WithAttribute / WithAutoHeadingID) the attribute clauses are theorems about the model of
+parser/attribute.go and the heading glue: names lexically valid for EVERY source, pairwise distinct on the node. -/
+theorem attribute_names_valid : type_of% @GM.Props.Attribute.parseAttributes_names_valid := @GM.Props.Attribute.parseAttributes_names_valid
+theorem attribute_names_distinct : type_of% @GM.Props.Attribute.setAttribute_names_distinct := @GM.Props.Attribute.setAttribute_names_distinct
+theorem attribute_heading_node_inv : type_of% @GM.Props.Attribute.heading_node_inv := @GM.Props.Attribute.heading_node_inv
+theorem attribute_setext_close_inv : type_of% @GM.Props.Attribute.setext_close_attrs_inv := @GM.Props.Attribute.setext_close_attrs_inv
 
 /-! ### non-vacuity (tests on literals) -/
 
